@@ -186,7 +186,8 @@ func (c *CheckCtx) finish() (int, error) {
 	code := 0
 	seen := map[string]bool{}
 	nviol := 0
-	os.MkdirAll(filepath.Join(verifHome, "replays"), 0o755)
+	outHome := envOr("VERIF_OUT", verifHome) // evaluation runs against scratch copies keep /verif untouched
+	os.MkdirAll(filepath.Join(outHome, "replays"), 0o755)
 	for _, v := range c.Violations {
 		key := v.What
 		if seen[key] {
@@ -198,7 +199,7 @@ func (c *CheckCtx) finish() (int, error) {
 			continue
 		}
 		b, _ := json.MarshalIndent(v, "", " ")
-		path := filepath.Join(verifHome, "replays", fmt.Sprintf("%s-%s.json", c.Prop, shortHash(b)))
+		path := filepath.Join(outHome, "replays", fmt.Sprintf("%s-%s.json", c.Prop, shortHash(b)))
 		if err := os.WriteFile(path, b, 0o644); err != nil {
 			return 2, err
 		}
@@ -277,7 +278,7 @@ func (c *CheckCtx) writeEvidence(nviol int) error {
 		"violations":  nviol,
 	}
 	b, _ := json.MarshalIndent(ev, "", " ")
-	dir := filepath.Join(verifHome, "evidence")
+	dir := filepath.Join(envOr("VERIF_OUT", verifHome), "evidence")
 	os.MkdirAll(dir, 0o755)
 	return os.WriteFile(filepath.Join(dir, c.Prop+".json"), b, 0o644)
 }
@@ -554,7 +555,7 @@ func propsOfMismatch0(m Mismatch, ev map[string]any) []string {
 		return ps
 	case "write.elsewhere":
 		return []string{"C03", "C12", "C11"}
-	case "alone.missing":
+	case "alone.missing", "alone.location":
 		return []string{"C19", "C11", "C12"}
 	case "alone.value":
 		return []string{"C19", "C04"}
